@@ -161,7 +161,7 @@ CmdChoices ==
   \cup {[c |-> x, k |-> c, i |-> 0] : x \in CmdKinds \cap {"ignoretype", "ignoreinvolved", "forcetype"}, c \in 1..NC}
   \cup (IF "ignoremember" \in CmdKinds
           THEN UNION {{[c |-> "ignoremember", k |-> c, i |-> i] :
-                         i \in {j \in 1..NM(c) : Mbr(c, j).k \in {"meth", "smeth", "data", "dtor", "ctor", "usep", "gct"}}} : c \in 1..NC}
+                         i \in {j \in 1..NM(c) : Mbr(c, j).k \in {"meth", "smeth", "data", "dtor", "ctor", "usep"}}} : c \in 1..NC}
           ELSE {})
 
 Finish ==
